@@ -17,7 +17,7 @@ import pickle
 
 import numpy as np
 
-ROUTES = ["swapswap", "deepcopy", "pickle", "proportion1", "sample-replacement", "sample-smooth", "sample-single_pass",
+ROUTES = ["swapswap", "deepcopy", "pickle", "subclass", "proportion1", "sample-replacement", "sample-smooth", "sample-single_pass",
           "sample-proportion", "sample-swap"]
 
 
@@ -25,7 +25,7 @@ def pick(rng, p=0.12, samples=True):
     """a route name or None (probability p); `samples=False` restricts to the routes that keep the multiset"""
     if rng.random() >= p:
         return None
-    pool = ROUTES if samples else ROUTES[:4]
+    pool = ROUTES if samples else ROUTES[:5]
     return rng.choice(pool)
 
 
@@ -43,6 +43,20 @@ def apply(s, route, seed):
             o = copy.deepcopy(s)
         elif route == "pickle":
             o = pickle.loads(pickle.dumps(s))
+        elif route == "subclass":
+            # an instance of a user subclass with its own constructor signature (the base class's queries must keep working
+            # on it; anything rebuilding "an object like self" has to go through the base constructor)
+            from score_analysis import Scores
+
+            class ProjectScores(Scores):
+                def __init__(self, bundle):
+                    super().__init__(pos=bundle["pos"], neg=bundle["neg"], nb_easy_pos=bundle["ep"], nb_easy_neg=bundle["en"],
+                                     score_class=bundle["sc"], equal_class=bundle["ec"], is_sorted=True)
+
+            if type(s) is not Scores:
+                return None
+            o = ProjectScores({"pos": np.array(s.pos, copy=True), "neg": np.array(s.neg, copy=True), "ep": s.nb_easy_pos,
+                               "en": s.nb_easy_neg, "sc": s.score_class, "ec": s.equal_class})
         elif route == "proportion1":
             o = s.bootstrap_sample(BootstrapConfig(sampling_method="proportion", ratio=1.0))
         elif route == "sample-replacement":
